@@ -21,6 +21,10 @@ pub struct Entry {
    /// call sites: program -> relations in which the finding shows; empty = not restricted
    #[serde(default)]
    pub sites: std::collections::BTreeMap<String, Vec<String>>,
+   /// Engine B (Miri) findings: substrings, one of which must occur in the innermost /repo frame
+   /// ("<function> at /repo/<file>") of the report
+   #[serde(default)]
+   pub frames: Vec<String>,
    #[serde(default)]
    pub commit: Option<String>,
 }
@@ -67,5 +71,17 @@ pub fn matching<'a>(entries: &'a [Entry], property: &str, case: &Case, v: &Viola
             "ser" => case.actors.iter().all(|a| a.variant == "ser" || a.variant == "ser_to"),
             _ => false,
          }
+   })
+}
+
+/// known-finding match for an Engine B (Miri) report
+pub fn matching_miri<'a>(entries: &'a [Entry], property: &str, class: &str, repo_frame: &str) -> Option<&'a Entry> {
+   entries.iter().find(|e| {
+      e.status == "open"
+         && e.property == property
+         && e.trigger == "miri"
+         && class.starts_with(&e.class)
+         && !e.frames.is_empty()
+         && e.frames.iter().any(|f| repo_frame.contains(f.as_str()))
    })
 }
